@@ -35,6 +35,7 @@ def must_see(tier):
             m['%s:operand:%s' % (impl, k)] = 5
         m[impl + ':dups-across-operands'] = 10
         m[impl + ':ghost-operands'] = 20
+        m[impl + ':lazy-outer-sequence'] = 10
     m['py:n>=4000'] = 10
     return m
 
@@ -121,6 +122,40 @@ class GetitemSeq:
 
     def __getitem__(self, i):
         return self._items[i]
+
+
+class LazyOuter:
+    """The sequence handed to multiunion builds every operand on demand
+    (a fresh container each time it is asked): nothing else keeps the
+    operands alive while multiunion walks the sequence."""
+
+    def __init__(self, recipes):
+        self._recipes = recipes
+
+    def __len__(self):
+        return len(self._recipes)
+
+    def __getitem__(self, i):
+        r = self._recipes[i]
+        return r() if callable(r) else r
+
+
+def lazy_outer(ops):
+    recipes = []
+    for o in ops:
+        if isinstance(o, int):
+            recipes.append(o)
+        elif hasattr(o, 'keys') and hasattr(o, '_p_state'):
+            ks = list(o.keys())
+            recipes.append(lambda t=type(o), ks=ks: t(
+                ks if not hasattr(t, 'items') else [(k, 0) for k in ks]))
+        elif isinstance(o, range):
+            recipes.append(o)
+        else:
+            ks = list(o)
+            recipes.append(lambda t=(tuple if isinstance(o, tuple) else list),
+                           ks=ks: t(ks))
+    return LazyOuter(recipes)
 
 
 def split_operands(fam, impl, rng, keys, rec):
@@ -213,6 +248,7 @@ def run_shard(spec, rec):
         for o in ops:
             if isinstance(o, range):
                 allk |= set(o)
+        o = None
         want = sorted(allk)
         desc = dict(family=fam.name, impl=impl, n=len(keys), pattern=pattern,
                     operand_kinds=kinds[:12])
@@ -223,6 +259,15 @@ def run_shard(spec, rec):
             # operands as they come out of a database: ghosts
             keep, ng = setops.store_and_ghostify(ops, rec, impl + ':')
             desc['ghost_operands'] = ng
+        if keep is None and i % 5 == 1:
+            # every operand is created when multiunion asks for it and dies
+            # as soon as multiunion lets go of it
+            try:
+                ops = lazy_outer(ops)
+                rec.ev(impl + ':lazy-outer-sequence')
+                desc['outer'] = 'lazy'
+            except Exception:
+                pass
         try:
             r = fn(ops)
         except Exception as e:
